@@ -1,4 +1,5 @@
 """C07 Checksum function (DESIGN.md 5.3, 6 C07; spec/Chksum.tla, MC_Chksum.tla, T_Chksum.tla)."""
+import os
 import random
 
 import core
@@ -39,7 +40,7 @@ def random_cases(rng, n):
                 b = [rng.choice([200, 255]) for _ in range(sz)]
             src = {"kind": "lit", "bytes": b, "sz": sz}
         else:
-            sz = rng.choice([rng.randint(250, 1400), rng.randint(1000, 4200), 256 * rng.randint(1, 12) + rng.randint(-9, 9)])
+            sz = rng.choice([rng.randint(250, 1400), rng.randint(1000, 2600), 256 * rng.randint(1, 9) + rng.randint(-9, 9)])
             src = {"kind": "pat", "pat": rng.choice(["ff", "alt", "hi", "ramp", "mix"]), "seed": rng.randint(0, 999), "sz": sz}
         off = rng.choice([0, 0, rng.randint(0, min(sz, 12)), rng.randint(0, sz)])
         rem = sz - off
@@ -64,6 +65,9 @@ def klass(c):
 
 
 def run(ctx):
+    if os.environ.get("VERIF_SELFTEST") == "1" or not ctx.quick:
+        selftest(ctx)           # binding self-test: a corrupted recorded field must be rejected
+        ctx.extra["selftest"] = "corrupted field rejected"
     q = ctx.quick
     # 1. the transcription against its meaning, exhaustively over the bounded families; the deviation
     #    config (what the code did before the fix) must break ReadsInRange; some run must reach a fold
@@ -74,8 +78,8 @@ def run(ctx):
             ("MC_Chksum.tla", "MC_Chksum_carry.cfg" if q else "MC_Chksum_carry_thorough.cfg", None, ["InvResult", "InvReads", "InvGhost", "InvLoop", "InvTail"]),
             ("MC_Chksum.tla", "MC_Chksum_dev.cfg", "InvReads", []),
             ("MC_Chksum.tla", "MC_Chksum_witness.cfg", "NeverFolds", [])]
-    if q:
-        runs.insert(2, ("MC_Chksum.tla", "MC_Chksum_tiny.cfg", None, ["InvResult", "InvReads", "InvGhost", "InvLoop", "InvTail"]))
+    if not q:
+        runs.append(("MC_Chksum.tla", "MC_Chksum_tiny_thorough.cfg", None, ["InvResult", "InvReads", "InvGhost", "InvLoop", "InvTail"]))
     res = nc.model_runs(ctx, runs)
     ctx.exhaustive = True
     ctx.tick("model")
@@ -89,7 +93,7 @@ def run(ctx):
         cases.append({"src": x["src"], "off": x["off"], "len": x["len"], "mode": "tight"})
         if rng.random() < 0.15:
             cases.append({"src": x["src"], "off": x["off"], "len": x["len"], "mode": rng.choice(["plain", "str"])})
-    nrand = 3000 if q else 100000
+    nrand = 2000 if q else 100000
     cases += random_cases(rng, nrand)
     evs = nc.run_commands(ctx, commands(cases))
     ctx.tick("probe")
